@@ -570,7 +570,11 @@ impl<'r> Gen<'r> {
         let mut inner: Vec<Var> = scope.to_vec();
         let mut params = Vec::new();
         for p in ps {
-            let n = self.fresh(&inner);
+            let mut n = self.fresh(&inner);
+            while params.iter().any(|(m, _): &(String, Option<Ty>)| m == &n) {
+                self.counter += 1;
+                n = format!("{}{}", n, self.counter);
+            }
             inner.push(Var { name: n.clone(), ty: p.clone(), is_closure: false, known: true });
             params.push((n, Some(p.clone())));
         }
@@ -627,7 +631,10 @@ impl<'r> Gen<'r> {
                 let ps: Vec<Ty> = (0..nparams).map(|_| self.gen_type(1)).collect();
                 let clo = self.gen_func_value_closure_only(&ps, ty, depth - 1, scope);
                 let fname = self.fresh(scope);
-                let args: Vec<Expr> = ps.iter().map(|p| self.gen_expr(p, depth - 1, scope)).collect();
+                // the arguments are evaluated where the closure's name is already bound
+                let mut with_f = scope.to_vec();
+                with_f.push(Var { name: fname.clone(), ty: Ty::Func(ps.clone(), Box::new(ty.clone())), is_closure: true, known: false });
+                let args: Vec<Expr> = ps.iter().map(|p| self.gen_expr(p, depth - 1, &with_f)).collect();
                 return Expr::Block(vec![Stmt::Let(Pat::Var(fname.clone()), None, clo)], Some(Box::new(Expr::CallValue(Box::new(Expr::Var(fname)), args))));
             }
         }
